@@ -101,6 +101,8 @@ pub fn extras() -> Vec<&'static str> {
         // one cogeneration input feeding two production components (most of the cogenerated electricity exported)
         "CONSUMO,ILU,ELECTRICIDAD,10,10\nCONSUMO,COGEN,BIOMASA,100,100\nPRODUCCION,EL_COGEN,20,20\nPRODUCCION,EL_COGEN,20,20\nCONSUMO,CAL,GASNATURAL,200,200",
         "CONSUMO,CAL,ELECTRICIDAD,10\nCONSUMO,CAL,EAMBIENTE,150\nCONSUMO,COGEN,GASNATURAL,100\nPRODUCCION,EL_COGEN,25\nPRODUCCION,EL_COGEN,15",
+        // biomass cogeneration exporting most of its electricity, with a gas boiler
+        "CONSUMO,ILU,ELECTRICIDAD,10\nCONSUMO,COGEN,BIOMASA,100\nPRODUCCION,EL_COGEN,40\nCONSUMO,CAL,GASNATURAL,200",
         // PV surplus consumed by non-EPB electricity and partly exported to the grid
         "1,CONSUMO,ILU,ELECTRICIDAD,10\n1,PRODUCCION,EL_INSITU,40\n1,CONSUMO,NEPB,ELECTRICIDAD,12\n2,CONSUMO,CAL,BIOMASA,30",
         "1,CONSUMO,ILU,ELECTRICIDAD,10,10\n1,PRODUCCION,EL_INSITU,15,40\n1,CONSUMO,NEPB,ELECTRICIDAD,20,5\n2,CONSUMO,CAL,RED1,30,30",
